@@ -33,6 +33,7 @@ DEFAULT_OPTS = dict(
     max_objects=3,
     adversarial_names=False,
     metric=None,  # None | "any"
+    ifuns=False,  # interpreted functions (given as finite tables)
     traj=False,  # PDDL3 trajectory constraints (sometime, at-most-once, sometime-before/after)
 )
 
@@ -100,6 +101,9 @@ class Gen:
         self.p_undef = 0.0 if (not o["undefined"] or r.random() < 0.6) else r.choice([0.15, 0.3, 0.5])
         self.gen_fluents()
         self.gen_init()
+        P["ifuns"] = []
+        if o["ifuns"] and o["numeric"]:
+            self.gen_ifuns()
         nact = r.randint(min(2, o["max_actions"]), o["max_actions"])
         an = self.names("a", nact)
         P["actions"] = [self.action(an[i]) for i in range(nact)]
@@ -123,8 +127,19 @@ class Gen:
         if o["metric"]:
             P["metric"] = self.metric()
         P["nmetrics"] = 0 if P["metric"]["kind"] == "none" else 1
-        P["ifuns"] = []
         return P
+
+    def gen_ifuns(self):
+        """interpreted functions as finite tables over int[-2,6] (one numeric, one Boolean)"""
+        r, P = self.r, self.P
+        it = {"k": "int", "lo": NONE, "hi": NONE}
+        grid = list(range(-2, 7))
+        a, b, m = r.choice([1, 2, -1]), r.choice([0, 1, 3]), r.choice([3, 4, 5])
+        P["ifuns"].append({"name": "g", "sig": [{"name": "x", "type": it}], "ret": it,
+                           "table": [{"args": [NV(x)], "v": NV((a * x + b) % m)} for x in grid]})
+        th = r.choice([0, 1, 2])
+        P["ifuns"].append({"name": "h", "sig": [{"name": "x", "type": it}, {"name": "y", "type": it}], "ret": {"k": "bool"},
+                           "table": [{"args": [NV(x), NV(y)], "v": BV((x + y) % 2 == 0 or x > y + th)} for x in grid for y in grid]})
 
     def type_of(self, name):
         return {"k": "user", "name": name}
@@ -252,6 +267,8 @@ class Gen:
         r, P = self.r, self.P
         fl = [f for f in P["fluents"] if f["type"]["k"] in (("int",) if intonly else ("int", "real"))]
         q = r.random()
+        if P.get("ifuns") and depth > 0 and r.random() < 0.2:
+            return E("ifun", [self.num_expr(depth - 1, params, vs, intonly=True)], name="g")
         if depth <= 0 or q < 0.35 or not fl:
             if fl and r.random() < 0.6:
                 app = self.fluent_app(r.choice(fl), params, vs)
@@ -277,6 +294,8 @@ class Gen:
             kinds += ["cmp", "cmp"]
         if o["equality"]:
             kinds += ["oeq"]
+        if P.get("ifuns"):
+            kinds += ["ifun"]
         for _ in range(6):
             k = r.choice(kinds)
             if k == "bf":
@@ -286,6 +305,8 @@ class Gen:
                 app = self.fluent_app(r.choice(bfs), params, vs)
                 if app is not None:
                     return app
+            elif k == "ifun":
+                return E("ifun", [self.num_expr(1, params, vs, intonly=True), self.num_expr(0, params, vs, intonly=True)], name="h")
             elif k == "cmp":
                 a = self.num_expr(1, params, vs)
                 b = self.num_expr(1, params, vs) if r.random() < 0.4 else num(r.choice([0, 1, 2, 3]))
